@@ -710,7 +710,7 @@ def concurrent_enum_runner(mod, facet, tier, seed, shard, nshards, stats):
 
 
 FACETS = [
-    Facet("typed", strategy, check, classify, quick=2000, thorough=50000),
+    Facet("typed", strategy, check, classify, quick=2000, thorough=150000),
     Facet("concurrent", concurrent_strategy, check_concurrent, classify_concurrent, quick=200, thorough=10000),
     Facet("concurrent-enum", None, check_concurrent, classify_concurrent, quick=1, thorough=1, runner=concurrent_enum_runner),
 ]
